@@ -313,7 +313,8 @@ func (c *checker) checkDecoders(base []blob.Ref) {
 			r.Violation("decoder/binary-reencode-differs/"+label, fmt.Sprintf("UnmarshalBinary(%x) = %v re-encodes to %x (%v)", data, ref, enc, err), hex.EncodeToString(data))
 		}
 	}
-	for name, size := range supported {
+	for _, name := range []string{"sha1", "sha224", "sha256"} {
+		size := supported[name]
 		for _, l := range []int{0, 1, size - 1, size, size + 1, 2 * size, 200} {
 			raw := make([]byte, l)
 			rng.Read(raw)
@@ -539,6 +540,34 @@ func run(r *ev.Run) {
 			}
 		}
 	}
+	// near-miss hash names: every one-character substitution, deletion and insertion in a supported
+	// name, followed by a digest of exactly that hash's length (and of the other supported lengths)
+	nearMiss := 0
+	for _, name := range []string{"sha1", "sha224", "sha256"} {
+		var variants []string
+		for i := 0; i <= len(name); i++ {
+			for _, ch := range []byte("abcdefghijklmnopqrstuvwxyz0123456789ASZ_-. ") {
+				if i < len(name) {
+					variants = append(variants, name[:i]+string(ch)+name[i+1:]) // substitution
+				}
+				variants = append(variants, name[:i]+string(ch)+name[i:]) // insertion
+			}
+			if i < len(name) {
+				variants = append(variants, name[:i]+name[i+1:]) // deletion
+			}
+		}
+		for _, v := range variants {
+			for _, size := range []int{20, 28, 32} {
+				hx := make([]byte, 2*size)
+				for i := range hx {
+					hx[i] = "0123456789abcdef"[rng.Intn(16)]
+				}
+				c.checkString(v + "-" + string(hx))
+				nearMiss++
+			}
+		}
+	}
+	r.Extra("near_miss_hash_names", nearMiss)
 	// over-long unknown digests
 	for _, l := range []int{126, 127, 128, 129, 130, 256, 257, 258, 300} {
 		c.checkString("foo-" + strings.Repeat("ab", l/2) + strings.Repeat("c", l%2))
